@@ -16,7 +16,7 @@ ROOTS = ["coro", "coro", "coro", "agen", "gen", "agen_thrown"]
 CORO_LINKS = ["await_coro", "await_gencoro", "await_wrapper", "await_gen", "agen_anext", "agen_asend", "agen_asend_agen", "with_del_self", "agen_athrow",
               "agen_aclose", "async_for", "agen_anext_default", "aiter_anext_default"]
 GEN_LINKS = ["yield_from"]
-ENDS = ["trap", "future", "future_falsy", "future_len0"]
+ENDS = ["trap", "future", "future_falsy", "future_len0", "gen_proto", "duck_gen", "coro_proto"]
 
 
 class Probe(Exception):
@@ -40,21 +40,82 @@ class FutureLike:
         return self          # "yield self" of a Future: suspends the awaiting chain
 
 
+LEAF_EVENTS: List[str] = []      # calls of the leaf objects' own methods that an observer has no business making
+
+
 class FalsyFuture(FutureLike):
     """e.g. an un-set event-like awaitable with __bool__."""
 
     def __bool__(self):
+        LEAF_EVENTS.append("bool")
         return False
 
 
 class EmptySizedFuture(FutureLike):
-    """a sized iterator whose length has reached 0."""
+    """a sized iterator whose length has reached 0 (a lazy source that is drained in order to be counted)."""
 
     def __len__(self):
+        LEAF_EVENTS.append("len")
         return 0
 
 
-END_CLASSES = {"future": FutureLike, "future_falsy": FalsyFuture, "future_len0": EmptySizedFuture}
+def _leaf_throw(self, *a):
+    """throw() of a hand-written leaf: raises what it is given, at the leaf (this frame is the leaf's own, not the chain's)."""
+    exc = a[0]
+    raise exc if isinstance(exc, BaseException) else (a[1] if len(a) > 1 and a[1] is not None else exc())
+
+
+import collections.abc as _abc
+
+
+class GenProtoFuture(_abc.Generator):
+    """A trap written by hand against the generator protocol (a trampoline's own suspension object): derives from the ABC."""
+
+    def __await__(self):
+        return self
+
+    def send(self, value):
+        return self
+
+    throw = _leaf_throw
+
+
+class DuckGenFuture(FutureLike):
+    """The same without the ABC: merely has send / throw / close next to __iter__ / __next__ (matches it structurally)."""
+
+    def send(self, value):
+        return self
+
+    throw = _leaf_throw
+
+    def close(self):
+        return None
+
+
+class CoroProtoFuture:
+    """An awaitable that also has send / throw / close (matches collections.abc.Coroutine structurally); __await__ hands out a
+    plain iterator."""
+
+    def __await__(self):
+        return self
+
+    def __iter__(self):
+        return self
+
+    def __next__(self):
+        return self
+
+    def send(self, value):
+        return self
+
+    throw = _leaf_throw
+
+    def close(self):
+        return None
+
+
+END_CLASSES = {"future": FutureLike, "future_falsy": FalsyFuture, "future_len0": EmptySizedFuture,
+               "gen_proto": GenProtoFuture, "duck_gen": DuckGenFuture, "coro_proto": CoroProtoFuture}
 
 
 def rand_links(rng: random.Random, n: int, root: str = "coro") -> List[str]:
@@ -357,7 +418,8 @@ def throw_path(ch: Chain):
         tb = e.__traceback__
         out = []
         while tb is not None:
-            out.append((tb.tb_frame, tb.tb_lineno))
+            if tb.tb_frame.f_code is not _leaf_throw.__code__:      # (the hand-written leaf's own throw method)
+                out.append((tb.tb_frame, tb.tb_lineno))
             tb = tb.tb_next
         return out[1:]
     except BaseException as e:  # the chain swallowed or transformed the probe: not a usable oracle
